@@ -7,7 +7,7 @@
    the two generators come from gen/GenC20.v (regenerated from /repo). *)
 From Coq Require Import List String Ascii ZArith Bool.
 Import ListNotations.
-From Dagrt Require Import GenC20 Wrap WrapProofs.
+From Dagrt Require Import GenC20 Wrap WrapProofs WrapEmit WrapEmitProofs.
 Open Scope list_scope.
 Open Scope Z_scope.
 
@@ -120,3 +120,89 @@ Theorem C20_layout_repaired : forall m esc dbl ind,
   ws_indent ind = true -> target_ok (LexQuoted esc) m ind esc dbl.
 Proof. exact layout_repaired. Qed.
 Print Assumptions C20_layout_repaired.
+
+(* ---- emission sites: the per-line use of wrap_line by the two generators (model/WrapEmit.v).
+   fits_width k width u l: if the tokenizer finds two or more tokens on u (the physical line with
+   its continuation marker removed) then the physical line l is at most width characters long. ---- *)
+
+(* Fortran get_code: comment lines (first non-blank character is the comment character) are
+   passed through unchanged ... *)
+Theorem C20_emit_fortran_comment : forall k m cmt n width line,
+  n <> O -> comment_line cmt line = true ->
+  fortran_emit_line k m cmt n width line = EmitOk [line].
+Proof. exact fortran_emit_comment. Qed.
+Print Assumptions C20_emit_fortran_comment.
+
+(* ... and no other line is: every physical line it is emitted as fits the width when it holds
+   more than one token (the length counts the leading blanks put back by get_code) *)
+Theorem C20_emit_fortran_width : forall k m cmt n width line outs,
+  fortran_emit_line k m cmt n width line = EmitOk outs -> comment_line cmt line = false ->
+  Forall2 (fits_width k width) (unmark outs) outs.
+Proof. exact fortran_emit_width. Qed.
+Print Assumptions C20_emit_fortran_width.
+
+Theorem C20_emit_fortran_tokens : forall k m cmt n width line outs,
+  fortran_emit_line k m cmt n width line = EmitOk outs -> comment_line cmt line = false ->
+  lex_of k (joined outs) = lex_of k line.
+Proof. exact fortran_emit_tokens. Qed.
+Print Assumptions C20_emit_fortran_tokens.
+
+Theorem C20_emit_fortran_only_ValueError : forall k m cmt n width line,
+  n <> O ->
+  (fortran_emit_line k m cmt n width line = EmitValueError <->
+   comment_line cmt line = false /\ lex_of k line = LexValueError) /\
+  fortran_emit_line k m cmt n width line <> EmitZeroDivisionError /\
+  fortran_emit_line k m cmt n width line <> EmitNewline.
+Proof. exact fortran_emit_error. Qed.
+Print Assumptions C20_emit_fortran_only_ValueError.
+
+(* finding trailing-comment: a statement followed by a trailing comment (no comment line) is wrapped
+   as one statement; a physical line that has to be continued then holds the comment, so its
+   marker is comment text (free form) -- for every tokenizer, with the generator's constants *)
+Theorem C20_emit_fortran_trailing_comment_refuted : forall k,
+  comment_line "!" wit_trailing = false /\
+  exists outs, fortran_emit_line k "&" "!" 1 80 wit_trailing = EmitOk outs /\
+               (2 <= List.length outs)%nat /\ continuation_lost "!" outs = true.
+Proof. exact fortran_trailing_comment_refuted. Qed.
+Print Assumptions C20_emit_fortran_trailing_comment_refuted.
+
+(* the module text returned by the Fortran generator as it is now (tokenizer, marker, comment
+   character, indent_spaces and width from gen/GenC20.v): the physical lines are the
+   concatenation of one group per source line; a comment line is its own group, every other
+   line's group re-reads to the line's tokens and its lines fit the width *)
+Theorem C20_emit_fortran_module : forall code text,
+  fortran_get_code fortran_lex fortran_marker fortran_comment fortran_indent_spaces default_width code
+    = EmitOk text ->
+  exists groups, text = List.concat groups /\
+                 Forall2 (fortran_line_ok fortran_lex fortran_comment default_width) code groups.
+Proof. exact (fortran_get_code_ok fortran_lex fortran_marker fortran_comment fortran_indent_spaces default_width). Qed.
+Print Assumptions C20_emit_fortran_module.
+
+(* Python _emit + emitters as they are now: the emitter's indent_amount equals the length of
+   wrap_line's indentation string (eq_refl on the generated constants), so the blanks both emitters
+   put in front of a wrapped line are exactly the indentation_len wrap_line_base allowed for *)
+Theorem C20_emit_python : forall clevel elevel line outs ts,
+  python_emit python_lex python_marker emitter_indent_amount (Str default_indentation) default_width
+              clevel elevel line = EmitOk outs ->
+  lex_of python_lex line = LexOk ts -> no_blank_token ts ->
+  Forall2 (fits_width python_lex default_width) (unmark outs) outs /\
+  lex_of python_lex (joined outs) = LexOk ts.
+Proof.
+  exact (python_emit_ok python_lex python_marker emitter_indent_amount (Str default_indentation)
+                        default_width eq_refl eq_refl).
+Qed.
+Print Assumptions C20_emit_python.
+
+Theorem C20_emit_python_only_ValueError : forall k m amount ind width clevel elevel line,
+  (python_emit k m amount ind width clevel elevel line = EmitValueError <-> lex_of k line = LexValueError) /\
+  python_emit k m amount ind width clevel elevel line <> EmitZeroDivisionError.
+Proof. exact python_emit_error. Qed.
+Print Assumptions C20_emit_python_only_ValueError.
+
+(* why C20_emit_python carries no_blank_token: a token made of characters that str.strip()
+   removes but the tokenizer does not split at (here a vertical tab) is emitted as the empty line *)
+Theorem C20_emit_python_blank_token_witness : forall k m amount ind width clevel elevel,
+  lex_of k wit_vt = LexOk [wit_vt] /\
+  python_emit k m amount ind width clevel elevel wit_vt = EmitOk [[]].
+Proof. exact python_emit_blank_token_lost. Qed.
+Print Assumptions C20_emit_python_blank_token_witness.
